@@ -352,6 +352,56 @@ def shrink(pid, cfg, case, bad_bits, mode, seed, tier, budget=40):
     return cur
 
 
+# ------------------------------------------------------------------------------- bulk runs (extracted model)
+def run_bulk(pid, spec, tier):
+    """spec: {"script": "tools/bulk16.py", "args": [...thorough...], "quick_args": [...], "kind": "c16" | "c03"}.
+    Returns (summary, problem, violation)."""
+    cmd = ["python3", os.path.join(ROOT, spec["script"])] + (spec.get("args", []) if tier == "thorough" else spec.get("quick_args", ["--quick"]))
+    extra = os.environ.get("VERIF_BULK_ARGS")
+    if extra:
+        cmd = ["python3", os.path.join(ROOT, spec["script"])] + extra.split()
+    try:
+        r = subprocess.run(cmd, capture_output=True, text=True, timeout=int(os.environ.get("VERIF_BULK_TIMEOUT", "3000")), cwd=ROOT)
+    except subprocess.TimeoutExpired:
+        return None, {"kind": "bulk", "what": spec["script"], "detail": "timed out"}, None
+    try:
+        summ = json.loads(r.stdout[r.stdout.index("{"):])
+    except Exception:
+        return None, {"kind": "bulk", "what": spec["script"], "detail": (r.stdout[-400:] + r.stderr[-800:])}, None
+    keep = {k: summ.get(k) for k in ("cases", "mismatches", "specfail", "impl_panics", "errors", "wall_s")}
+    keep["jobs"] = [{k: j.get(k) for k in ("job", "alphabet", "max_len", "ctx", "filters", "cuts", "cases", "random") if k in j} for j in summ.get("jobs", [])]
+    keep["what"] = spec.get("what", "") if tier == "thorough" else spec.get("quick_what", "")
+    keep["extraction"] = "Require Extraction; Require ExtrOcamlBasic; Extraction of the run modules only (mlrun/Extract*.v): no Extract Constant, no Extract Inductive of our own; N / positive / nat stay the extracted inductives; drivers mlrun/main*.ml (hex and int conversions, rendering) are hand-written glue"
+    errs = summ.get("errors") or 0
+    bad = (summ.get("mismatches") or 0) + (summ.get("specfail") or 0) + (summ.get("impl_panics") or 0) + (errs if isinstance(errs, int) else len(errs))
+    if r.returncode == 0 and not bad:
+        return keep, None, None
+    lines = summ.get("first_mismatches") or []
+    keep["first_reports"] = lines[:5]
+    # a SPECFAIL / implementation panic line carries a concrete input on which the property fails
+    for ln in lines:
+        parts = ln.split("\t")
+        if parts and parts[0] in ("SPECFAIL", "IMPLPANIC") and len(parts) > 1:
+            case = bulk_case_json(spec.get("kind"), parts[1])
+            if case is not None:
+                return keep, None, {"case": {"json": case, "extra": {"bulk_line": ln[:2000]}}, "why": "bulk run (extracted model): " + spec.get("spec_text", "the property fails on the implementation's observation of this input")}
+    detail = "; ".join(l[:400] for l in lines[:3]) or (r.stderr[-600:])
+    return keep, {"kind": "correspondence", "what": "bulk run: extracted model and implementation disagree", "detail": detail, "count": summ.get("mismatches")}, None
+
+
+def bulk_case_json(kind, case_line):
+    try:
+        f = case_line.split(";")
+        if kind == "c16":
+            d = {"bytes": list(bytes.fromhex(f[0]))}
+            if len(f) > 1 and f[1]:
+                d["ctx"] = bytes.fromhex(f[1]).decode("utf-8", "replace")
+            return d
+        return {"bulk_case": case_line}
+    except Exception:
+        return None
+
+
 # ------------------------------------------------------------------------------- known findings
 def load_known():
     p = os.path.join(ROOT, "known_findings.json")
@@ -530,6 +580,16 @@ def main():
         small = shrink(pid, cfg, c, v & cfg.get("model_bits", 3), mode, seed, tier)
         problems.append({"kind": "correspondence", "what": "model and implementation disagree", "detail": json.dumps(small["json"])[:1500], "count": len(model_diff)})
 
+    # 5b. bulk correspondence with the model EXTRACTED to OCaml (mlrun/; a small job list in the quick tier): orders of magnitude more
+    # cases than the vm_compute route, exhaustive over small alphabets; supports the tie, never replaces a theorem
+    bulk_summary = None
+    if cfg.get("bulk") and rc == 0 and run_ok and replay is None and os.environ.get("VERIF_BULK", "1") != "0":
+        bulk_summary, bulk_problem, bulk_violation = run_bulk(pid, cfg["bulk"], tier)
+        if bulk_violation and not violations:
+            violations.append(bulk_violation)
+        elif bulk_problem:
+            problems.append(bulk_problem)
+
     # 6. report
     wall = time.time() - t0
     distinct = set()
@@ -571,6 +631,8 @@ def main():
         "violations": len(violations) + (1 if (problems and not violations) else 0),
     }
     ev["coverage"].update(cfg.get("coverage_extra", {}))
+    if bulk_summary is not None:
+        ev["coverage"]["bulk_extracted_model"] = bulk_summary
     if tier == "thorough" and cfg.get("exhaustive_note_thorough"):
         ev["coverage"]["exhaustive_subspace"] = cfg["exhaustive_note_thorough"]
     elif cfg.get("exhaustive_note_quick"):
